@@ -123,8 +123,8 @@ func runC11(c *Ctx) {
 				}
 				loc := "?"
 				for _, m := range raceLoc.FindAllStringSubmatch(blk, -1) {
-					if strings.HasPrefix(m[1], "/repo/") {
-						loc = strings.TrimPrefix(m[1], "/repo/") + ":" + m[2]
+					if strings.HasPrefix(m[1], repoPrefix()) {
+						loc = strings.TrimPrefix(m[1], repoPrefix()) + ":" + m[2]
 						break
 					}
 				}
@@ -194,4 +194,12 @@ func tailHead(s string, n int) string {
 		return s[:n]
 	}
 	return s
+}
+
+// repoPrefix: where the library's sources are (for mapping race reports to files): /repo, or $VERIF_REPO for a sweep over a copy
+func repoPrefix() string {
+	if r := os.Getenv("VERIF_REPO"); r != "" {
+		return strings.TrimSuffix(r, "/") + "/"
+	}
+	return "/repo/"
 }
